@@ -483,13 +483,16 @@ func (r *traceReader) Seek(off int64, whence int) (int64, error) {
 func (r *traceReader) Close() error {
 	r.enter()
 	defer r.exit()
-	ci, idx, _ := r.t.begin("RClose", r.h.Ptr, 0, 0, r.h.ID, nil)
+	ci, idx, herr := r.t.begin("RClose", r.h.Ptr, 0, 0, r.h.ID, nil)
 	r.t.mu.Lock()
 	r.h.Closes++
 	r.t.mu.Unlock()
 	atomic.StoreInt32(&r.h.closed, 1)
-	err := r.r.Close()
-	r.t.end(ci, idx, 0, err, false)
+	err := r.r.Close() // the handle is always really closed; a hook error is only reported
+	if herr != nil {
+		err = herr
+	}
+	r.t.end(ci, idx, 0, err, herr != nil)
 	return err
 }
 
